@@ -14,7 +14,10 @@ META = dict(
                 'symbolic span loss, slope, reference loss, range bounds, previous offset and VOA, reference total power, operator '
                 'delta_p / gain / VOA and amplifier p_max; all arithmetic is linear real/integer (exact rounding), decided by z3',
     bounds=['one amplifier step from an arbitrary upstream state (previous delta_p, previous VOA): inductive step along an OMS of any length',
-            'rounding step in {0.1, 0.5, 1.0, 0 (=0.01 resolution)}', 'amplifier type imposed (selection itself is C10)'],
+            'rounding step in {0.1, 0.5, 1.0, 0 (=0.01 resolution)}', 'amplifier type imposed in H9a-H9c',
+            'H9c: two-span OMS (booster, in-line, preamp), span losses in [5, 35] dB, p_max in [15, 30] dBm, 40 channels, automatic output VOA on/off',
+            'H9d: model auto-selected among 3 sub-libraries (EDFA only / with Raman hybrids / fixed gain + high power); span loss in [5, 45] dB, '
+            '1-400 channels; 3 upstream states (7 thorough)'],
     assumptions=['floats as reals (rounding to the step modelled exactly)', 'Raman gain estimate and SRS tilt deviation zero (no Raman '
                  'fibre; deviation_db=0)', 'propagation of the design comb reproducing these powers follows from C04/C05/C06 element steps'],
     stubs=['span loss injected through the design_span_loss cache attribute that span_loss() itself maintains'],
